@@ -18,6 +18,9 @@ ROOTS = [
     ("puresnmp_plugins", os.path.join(REPO, "src", "puresnmp_plugins")),
     ("x690", os.path.join(SITE, "x690")),
 ]
+if os.environ.get("PYVC_EXTRA_ROOT"):       # tools/crosscheck.py: the interpreter conformance corpus, name=path
+    _n, _p = os.environ["PYVC_EXTRA_ROOT"].split("=", 1)
+    ROOTS.append((_n, _p))
 
 
 class FuncInfo:
@@ -48,6 +51,8 @@ def _walk_own(fn):
     while stack:
         n = stack.pop()
         yield n
+        if isinstance(n, (ast.FunctionDef, ast.AsyncFunctionDef, ast.ClassDef, ast.Lambda)):
+            continue          # a nested definition: its body is not part of this function
         for c in ast.iter_child_nodes(n):
             if isinstance(c, (ast.FunctionDef, ast.AsyncFunctionDef, ast.ClassDef, ast.Lambda)):
                 continue
